@@ -50,6 +50,8 @@ type HostSpec struct {
 	// usual challenge: "" = the usual challenge; "nohdr" = no Www-Authenticate at all; "negotiate" = an
 	// unsupported scheme; "malformed" = an unparsable header.
 	Retry401 string `json:"retry401,omitempty"`
+	// IssuedAtLower: issued_at is written with lower-case "t" and "z", which RFC 3339 allows
+	IssuedAtLower bool `json:"issued_at_lower,omitempty"`
 	// ClockAheadMs: the token server's clock runs this far ahead of the client's (issued_at lies in the
 	// client's future)
 	ClockAheadMs int `json:"clock_ahead_ms,omitempty"`
@@ -144,18 +146,22 @@ type Arrival struct {
 	Raw      string // everything that went out, for secret searching
 }
 
+// MaxTokenRequests is the number of token requests a world serves before it cuts the client off.
+const MaxTokenRequests = 400
+
 // World implements http.RoundTripper.
 type World struct {
-	mu      sync.Mutex
-	Hosts   map[string]*HostSpec // by registry host
-	byRealm map[string][]*HostSpec
-	Log     []*Arrival
-	seq     int
-	nTokens int
-	Start   time.Time
-	Allowed map[string]map[Triple]bool // per registry host: what its credential may be granted when Refuse is set
-	refresh map[string]string          // current valid refresh token per registry host
-	perHost map[string]int
+	mu            sync.Mutex
+	Hosts         map[string]*HostSpec // by registry host
+	byRealm       map[string][]*HostSpec
+	Log           []*Arrival
+	seq           int
+	nTokens       int
+	Start         time.Time
+	tokenRequests int
+	Allowed       map[string]map[Triple]bool // per registry host: what its credential may be granted when Refuse is set
+	refresh       map[string]string          // current valid refresh token per registry host
+	perHost       map[string]int
 }
 
 func New(hosts []HostSpec) *World {
@@ -239,6 +245,14 @@ func (w *World) RoundTrip(req *http.Request) (*http.Response, error) {
 		req.Body.Close()
 	}
 	if req.URL.Path == "/token" {
+		w.mu.Lock()
+		w.tokenRequests++
+		over := w.tokenRequests > MaxTokenRequests
+		w.mu.Unlock()
+		if over {
+			// a client that keeps asking is cut off, so that its call returns and the per-call bound is judged
+			return nil, fmt.Errorf("authworld: more than %d token requests in one conversation", MaxTokenRequests)
+		}
 		delay := 0
 		w.mu.Lock()
 		for _, h := range w.byRealm[req.URL.Host] {
@@ -487,6 +501,9 @@ func (w *World) tokenServer(hs []*HostSpec, req *http.Request, a *Arrival, body 
 		// the token server's clock is ahead of the client's: the token says it was issued at a moment
 		// that the client has not reached yet; it expires expires_in after it was handed out all the same
 		out["issued_at"] = w.Start.Add(time.Duration(a.AtMs+int64(h.ClockAheadMs)) * time.Millisecond).UTC().Format(time.RFC3339Nano)
+	}
+	if ia, ok := out["issued_at"].(string); ok && h.IssuedAtLower {
+		out["issued_at"] = strings.ToLower(ia)
 	}
 	a.Minted = &t
 	if h.TokenFault == "accessfield" {
